@@ -191,8 +191,10 @@ pub fn check(c: &Case13, st: &mut Stats, bin: &std::path::Path, scratch: &std::p
                 Expect::Status { code: want, diagnostic, what: why } => {
                     ensure!(code == *want, &sig("status"), "`hyeong {}` ended with status {} want {} ({}); stderr {:?}", what, code, want, why, err.chars().take(300).collect::<String>());
                     if *diagnostic {
-                        let program_err = model.as_ref().map(|m| m.err.len()).unwrap_or(0);
-                        ensure!(r.stderr.len() > program_err, &sig("diagnostic"), "`hyeong {}` ended with status 1 ({}) without printing a diagnostic; stderr {:?}", what, why, err);
+                        // a diagnostic = something on stderr that the program did not write itself; at level 2 the program's own
+                        // text may be withheld, so the test is "stderr is not a prefix of what the program writes", not a length comparison
+                        let program_err: &[u8] = model.as_ref().map(|m| m.err.as_bytes()).unwrap_or(b"");
+                        ensure!(!r.stderr.is_empty() && !program_err.starts_with(&r.stderr), &sig("diagnostic"), "`hyeong {}` ended with status 1 ({}) without printing a diagnostic; stderr {:?}", what, why, err);
                     }
                     st.class(&format!("{}: {}", if c.sub == 3 { "check" } else { "run" }, why));
                     if c.sub < 3 {
